@@ -21,6 +21,16 @@ GHOST_APP = 7          # an application that is NOT in context.applications (hos
 UNKNOWN_BUSY = 99      # a busy application name unknown to the context
 
 
+_CLOCK = []
+
+
+def ensure_clock():
+    """ install the logical clock once per process """
+    if not _CLOCK:
+        svenv.install_clock()
+        _CLOCK.append(True)
+
+
 def app_name(a):
     return f'app{a}'
 
@@ -129,7 +139,7 @@ class HandlerSuite(Suite):
         from supvisors.strategy import RunningFailureHandler
         from supvisors.ttypes import RunningFailureStrategies
         if self.supv is None:
-            svenv.install_clock()
+            ensure_clock()
             self.supv = svenv.make_supvisors()
         supv = self.supv
         ctx = supv.context
@@ -323,3 +333,342 @@ class HandlerSuite(Suite):
                         issued['deferred_triggers'] += 1
         return {'op_kinds': kinds, 'sequence_lengths': lens, 'crashes': crashes, 'issued': issued,
                 'promotions_RESTART_PROCESS_to_RESTART_APPLICATION': promoted}
+
+
+# ======================================================================================================
+# Commander.on_instances_invalidation : which lost processes are left for the failure handler
+# ======================================================================================================
+def ident(i):
+    return f'10.0.0.{i}:25000'
+
+
+class InvalidationSuite(Suite):
+    name = 'invalidation'
+    prelude = 'From Sup Require Import FailureHandler.\nOpen Scope Z_scope.'
+    case_type = 'icase'
+    evals = {'mismatches': 'imismatches', 'spec_violations': 'ispec_violations'}
+
+    def __init__(self):
+        self.supv = None
+
+    def gen_case(self, rng):
+        n_procs = rng.randint(1, 8)
+        procs = []
+        for p in range(1, n_procs + 1):
+            procs.append({'id': p, 'required': rng.random() < 0.4,
+                          'sfs': rng.choice(['ABORT', 'STOP', 'CONTINUE', 'CONTINUE'])})
+
+        def jobs(n):
+            out = []
+            for _ in range(n):
+                cur = [(rng.randint(1, n_procs), rng.randint(1, 4)) for _ in range(rng.randint(0, 3))]
+                planned = {}
+                for _ in range(rng.randint(0, 3)):
+                    planned.setdefault(rng.randint(0, 2), []).append((rng.randint(1, n_procs), rng.choice([0, 0, 1, 2, 3])))
+                out.append({'current': cur, 'planned': sorted(planned.items())})
+            return out
+        # [starter current applications, starter planned applications, stopper current, stopper planned]
+        case = {'procs': procs,
+                'starter': [jobs(rng.randint(0, 2)), jobs(rng.randint(0, 2))],
+                'stopper': [jobs(rng.randint(0, 2)), jobs(rng.randint(0, 2))],
+                'lost': sorted(rng.sample([1, 2, 3, 4], rng.randint(1, 3))),
+                'failed': sorted(rng.sample(range(1, n_procs + 1), rng.randint(0, n_procs)))}
+        return case
+
+    def generate(self, rng, tier):
+        n = 600 if tier == 'quick' else 12000
+        return [self.gen_case(rng) for _ in range(n)]
+
+    def execute(self, case):
+        from supvisors.application import ApplicationStatus, ApplicationRules
+        from supvisors.commander import (Starter, Stopper, ApplicationStartJobs, ApplicationStopJobs,
+                                         ProcessCommand, ProcessStartCommand, ProcessStopCommand)
+        from supvisors.process import ProcessStatus, ProcessRules
+        from supvisors.ttypes import StartingFailureStrategies, StartingStrategies
+        if self.supv is None:
+            ensure_clock()
+            self.supv = svenv.make_supvisors()
+        supv = self.supv
+        processes = {}
+        erases = {}
+        for p in case['procs']:
+            rules = ProcessRules(supv)
+            rules.required = p['required']
+            rules.starting_failure_strategy = StartingFailureStrategies[p['sfs']]
+            processes[p['id']] = ProcessStatus('app', proc_name(p['id']), rules, supv)
+            erases[p['id']] = bool(p['required'] and p['sfs'] in ('ABORT', 'STOP'))
+        proc_id = {v: k for k, v in processes.items()}
+
+        def command(cls, p, i):
+            cmd = object.__new__(cls)
+            ProcessCommand.__init__(cmd, processes[p])
+            cmd.identifier = ident(i) if i else None
+            return cmd
+
+        def build(commander, layout, job_cls, cmd_cls):
+            objs = []
+            k = 0
+            for where, specs in zip(('current', 'planned'), layout):
+                for spec in specs:
+                    k += 1
+                    application = ApplicationStatus(f'app{k}', ApplicationRules(supv), supv)
+                    planned = {seq: [command(cmd_cls, p, i) for p, i in cmds] for seq, cmds in spec['planned']}
+                    if job_cls is ApplicationStartJobs:
+                        job = job_cls(application, planned, StartingStrategies.CONFIG, supv)
+                    else:
+                        job = job_cls(application, planned, supv)
+                    job.current_jobs = [command(cmd_cls, p, i) for p, i in spec['current']]
+                    if where == 'current':
+                        commander.current_jobs[application.application_name] = job
+                    else:
+                        commander.planned_jobs.setdefault(k % 2, {})[application.application_name] = job
+                    objs.append((job, spec))
+            commander.next = lambda: None
+            # the order in which Commander.on_instances_invalidation visits the application jobs
+            order = list(commander.current_jobs.values())
+            for m in commander.planned_jobs.values():
+                order += list(m.values())
+            spec_of = {id(j): s for j, s in objs}
+            return order, [spec_of[id(j)] for j in order]
+
+        starter, stopper = Starter(supv), Stopper(supv)
+        s_jobs, s_specs = build(starter, case['starter'], ApplicationStartJobs, ProcessStartCommand)
+        p_jobs, p_specs = build(stopper, case['stopper'], ApplicationStopJobs, ProcessStopCommand)
+        lost = [ident(i) for i in case['lost']]
+        failed = {processes[p] for p in case['failed']}
+        try:
+            # _WorkingState._common_next
+            starter.on_instances_invalidation(lost, failed)
+            stopper.on_instances_invalidation(lost, failed)
+        except Exception as exc:
+            return {'crash': svenv.crash_kind(exc)}
+
+        def num(identifier):
+            return int(identifier.split(':')[0].split('.')[-1]) if identifier else 0
+        model_jobs = []
+        for spec, is_start in [(s, True) for s in s_specs] + [(s, False) for s in p_specs]:
+            model_jobs.append(([(p, i, erases[p] if is_start else False) for p, i in spec['current']],
+                               [(p, i, False) for _, cmds in spec['planned'] for p, i in cmds]))
+        jobs_obs = [([(proc_id[c.process], num(c.identifier)) for c in job.current_jobs],
+                     [proc_id[c.process] for c in sum(job.planned_jobs.values(), [])])
+                    for job in s_jobs + p_jobs]
+        return {'jobs': model_jobs, 'failed': sorted(proc_id[x] for x in failed), 'jobs_obs': jobs_obs}
+
+    def emit(self, case, observed):
+        if 'crash' in observed:
+            # no crash is modelled: make the case disagree
+            return coq((list(case['lost']), C('nil'), list(case['failed']), ([-1], C('nil'))))
+        jobs = [app('mkJob', [app('mkCmd', p, i, e) for p, i, e in cur], [app('mkCmd', p, i, e) for p, i, e in pl])
+                for cur, pl in observed['jobs']]
+        ojobs = [([(p, i) for p, i in cur], list(pl)) for cur, pl in observed['jobs_obs']]
+        return coq((list(case['lost']), jobs, list(case['failed']), (list(observed['failed']), ojobs)))
+
+    def describe(self, case, observed):
+        return {'case': case, 'observed': observed}
+
+    def from_description(self, desc):
+        case = desc['case']
+        for side in ('starter', 'stopper'):
+            for specs in case[side]:
+                for spec in specs:
+                    spec['current'] = [tuple(x) for x in spec['current']]
+                    spec['planned'] = [(seq, [tuple(x) for x in cmds]) for seq, cmds in spec['planned']]
+        return case
+
+    def nontrivial(self, case, observed):
+        if 'crash' in observed:
+            return None
+        removed = set(case['failed']) - set(observed['failed'])
+        if removed and observed['failed']:
+            return repr((observed['failed'], observed['jobs_obs']))
+        return None
+
+    def distribution(self, inputs, observeds):
+        removed = kept = erased = 0
+        for case, ob in zip(inputs, observeds):
+            if 'crash' in ob:
+                continue
+            removed += len(set(case['failed']) - set(ob['failed']))
+            kept += len(ob['failed'])
+            erased += sum(1 for (cur, pl), (_, opl) in zip(ob['jobs'], ob['jobs_obs']) if pl and not opl)
+        return {'lost_processes_left_to_their_job': removed, 'lost_processes_handed_to_the_handler': kept,
+                'plans_erased_by_process_failure': erased,
+                'crashes': sum(1 for ob in observeds if 'crash' in ob)}
+
+
+# ======================================================================================================
+# who feeds the handler: exhaustive tabulation (T2) of the FSM decisions on the real classes
+# ======================================================================================================
+def process_info(group, name, state, now):
+    names = {0: 'STOPPED', 20: 'RUNNING'}
+    return {'group': group, 'name': name, 'state': state, 'statename': names[state], 'expected': True,
+            'now': now + 1000000, 'now_monotonic': now, 'start': now + 999990, 'start_monotonic': now - 10,
+            'stop': 0, 'stop_monotonic': 0, 'pid': 1234 if state == 20 else 0, 'description': '', 'spawnerr': '',
+            'extra_args': '', 'disabled': False, 'startsecs': 1, 'stopwaitsecs': 2, 'program_name': name,
+            'process_index': 0, 'has_stdout': True, 'has_stderr': False}
+
+
+def loss_scenario(state_name, master, loss, verbose=False):
+    """ Real FiniteStateMachine forced into a working state; instances 1 (local), 2, 3 RUNNING; process `solo` of the
+    managed application `app` runs only on instance 3 (RESTART_PROCESS). Instance 3 is declared FAILED (if `loss`)
+    and the FSM is evaluated once. Returns the failure handler calls seen during that evaluation. """
+    from supvisors.statemachine import FiniteStateMachine
+    from supvisors.ttypes import (SupvisorsStates, SupvisorsInstanceStates, ConciliationStrategies,
+                                  RunningFailureStrategies)
+    ensure_clock()
+    supv = svenv.make_supvisors()
+    supv.parser = None
+    supv.options.conciliation_strategy = ConciliationStrategies.USER
+    ctx = supv.context
+    calls = []
+    supv.failure_handler.add_default_job = lambda p: calls.append(('add_default_job', p.namespec))
+    supv.failure_handler.trigger_jobs = lambda: calls.append(('trigger_jobs',))
+    supv.starter.in_progress = lambda: state_name == 'DISTRIBUTION'
+    supv.stopper.in_progress = lambda: False
+    supv.starter.on_instances_invalidation = lambda lost, procs: calls.append(
+        ('on_instances_invalidation', list(lost), sorted(p.namespec for p in procs)))
+    supv.stopper.on_instances_invalidation = lambda lost, procs: None
+    svenv.CLOCK.now = 1000
+    fsm = supv.fsm = FiniteStateMachine(supv)
+    for i in range(1, 7):
+        ctx.instances[ident(i)]._state = (SupvisorsInstanceStates.RUNNING if i <= 3
+                                          else SupvisorsInstanceStates.STOPPED)
+    sm = supv.state_modes
+    master_id = ident(1) if master else ident(2)
+    state = SupvisorsStates[state_name]
+    sm.master_identifier = master_id
+    for i in (1, 2, 3):
+        sm.instance_state_modes[ident(i)].master_identifier = master_id
+        sm.instance_state_modes[ident(i)].state = state
+    # a conflict on `dup` keeps a Master in CONCILIATION (USER strategy: nothing is stopped)
+    layout = [(1, 'dup'), (3, 'solo')] + ([(2, 'dup')] if state_name == 'CONCILIATION' else [])
+    for i, name in layout:
+        ctx.load_processes(ctx.instances[ident(i)], [process_info('app', name, 20, 990)], check_state=False)
+    ctx.applications['app'].rules.managed = True
+    solo = ctx.applications['app'].processes['solo']
+    solo.rules.running_failure_strategy = RunningFailureStrategies.RESTART_PROCESS
+    sm.state = state
+    fsm.instance = fsm._StateInstances[state](supv)
+    if loss:
+        ctx.on_instance_failure(ctx.instances[ident(3)])
+    before = fsm.state.name
+    fsm.next()
+    if verbose:
+        print(f'  state {before} -> {fsm.state.name}; is_master={sm.is_master()}; instance 3 is '
+              f'{ctx.instances[ident(3)].state.name}; app:solo state={solo.state} running on '
+              f'{sorted(solo.running_identifiers)}')
+        print(f'  calls during the evaluation: {calls}')
+        calls2 = list(calls)
+        del calls[:]
+        for _ in range(3):
+            fsm.next()
+        print(f'  three more evaluations: state {fsm.state.name}; calls: {calls}')
+        return calls2
+    return calls
+
+
+class FeedSuite(Suite):
+    """ loss path: 3 working states x Master/slave x loss/no loss, on the real FiniteStateMachine.next() """
+    name = 'feed_loss'
+    prelude = 'From Sup Require Import FailureHandler.\nOpen Scope Z_scope.'
+    case_type = 'wcase'
+    evals = {'mismatches': 'wmismatches', 'spec_violations': 'wspec_violations', 'known:F8': 'wknown_f8'}
+    exhaustive = True
+    WS = {'DISTRIBUTION': 'WDistribution', 'OPERATION': 'WOperation', 'CONCILIATION': 'WConciliation'}
+
+    def generate(self, rng, tier):
+        return [(s, m, l) for s in self.WS for m in (True, False) for l in (True, False)]
+
+    def execute(self, case):
+        calls = loss_scenario(*case)
+        return any(c[0] == 'add_default_job' for c in calls)
+
+    def emit(self, case, observed):
+        return coq((C(self.WS[case[0]]), case[1], case[2], bool(observed)))
+
+    def describe(self, case, observed):
+        return {'case': list(case), 'observed': observed}
+
+    def from_description(self, desc):
+        return tuple(desc['case'])
+
+    def nontrivial(self, case, observed):
+        return repr(case)
+
+    def distribution(self, inputs, observeds):
+        return {'handled': sum(1 for o in observeds if o), 'cases': len(inputs)}
+
+
+class CrashFeedSuite(Suite):
+    """ crash path: FiniteStateMachine.on_process_state_event, 6 strategies x Master x crashed x forced """
+    name = 'feed_crash'
+    prelude = 'From Sup Require Import FailureHandler.\nOpen Scope Z_scope.'
+    case_type = 'ccase'
+    evals = {'mismatches': 'cmismatches', 'spec_violations': 'cspec_violations'}
+    exhaustive = True
+
+    def generate(self, rng, tier):
+        return [(s, m, c, f) for s in RF_NAMES for m in (True, False) for c in (True, False) for f in (True, False)]
+
+    def execute(self, case):
+        from supvisors.statemachine import FiniteStateMachine
+        from supvisors.process import ProcessStatus, ProcessRules
+        from supvisors.ttypes import RunningFailureStrategies
+        from supervisor.states import ProcessStates
+        strat, master, crashed, forced = case
+        ensure_clock()
+        supv = svenv.make_supvisors()
+        calls = []
+        supv.failure_handler.add_default_job = lambda p: calls.append('add_default_job')
+        supv.failure_handler.trigger_jobs = lambda: calls.append('trigger_jobs')
+        supv.starter.on_event = lambda *a: None
+        supv.stopper.on_event = lambda *a: None
+        fsm = FiniteStateMachine(supv)
+        fsm.on_restart = lambda: calls.append('on_restart')
+        fsm.on_shutdown = lambda: calls.append('on_shutdown')
+        rules = ProcessRules(supv)
+        rules.running_failure_strategy = RunningFailureStrategies[strat]
+        process = ProcessStatus('app', 'proc', rules, supv)
+        process._state = ProcessStates.FATAL if crashed else ProcessStates.STOPPED
+        process.expected_exit = not crashed
+        process.forced_state = ProcessStates.FATAL if forced else None
+        supv.context.on_process_state_event = lambda status, event: process
+        supv.state_modes.master_identifier = ident(1) if master else ident(2)
+        status = supv.context.instances[ident(2)]
+        fsm.on_process_state_event(status, {})
+        ending = 1 if 'on_restart' in calls else 2 if 'on_shutdown' in calls else 0
+        return ('add_default_job' in calls and 'trigger_jobs' in calls, ending)
+
+    def emit(self, case, observed):
+        return coq((C(RF[case[0]]), case[1], case[2], case[3], (bool(observed[0]), observed[1])))
+
+    def describe(self, case, observed):
+        return {'case': list(case), 'observed': list(observed)}
+
+    def from_description(self, desc):
+        return tuple(desc['case'])
+
+    def nontrivial(self, case, observed):
+        return repr(case)
+
+    def distribution(self, inputs, observeds):
+        return {'handled': sum(1 for o in observeds if o[0]), 'endings': sum(1 for o in observeds if o[1]),
+                'cases': len(inputs)}
+
+
+def replay_f8():
+    print('F8 replay on the real FiniteStateMachine (supvisors/statemachine.py)')
+    print('control: Master in OPERATION, instance 3 (hosting app:solo, RESTART_PROCESS) is lost')
+    c1 = loss_scenario('OPERATION', True, True, verbose=True)
+    print('test: Master in CONCILIATION (conflict on app:dup, USER strategy), same loss')
+    c2 = loss_scenario('CONCILIATION', True, True, verbose=True)
+    ok1 = any(c[0] == 'add_default_job' for c in c1)
+    ok2 = any(c[0] == 'add_default_job' for c in c2)
+    print(f'add_default_job called: OPERATION={ok1} CONCILIATION={ok2}')
+    print('F8 CONFIRMED' if ok1 and not ok2 else 'F8 NOT reproduced')
+
+
+if __name__ == '__main__':
+    import sys
+    if sys.argv[1:] == ['f8']:
+        replay_f8()
